@@ -79,3 +79,12 @@ Theorem C13_load_error_names_the_parsed_file fs rel content ln msg rest :
   parse_file fs rel = LOk (PFail (mkErr ln (abs_path rel) msg)).
 Proof. exact (load_error_names_the_parsed_file fs rel content ln msg rest). Qed.
 Print Assumptions C13_load_error_names_the_parsed_file.
+
+(* ---- from the source text to the reported line: every token of the lexer ends on the line given
+   by the position function (number of line feeds before its last byte), whatever precedes it *)
+From TW Require Import Positions LexerTokens.
+
+Theorem C13_token_end_line_counts_the_line_feeds input ts t :
+  lex_all input = Some ts -> In t ts -> exists e, tel t = fst (lc input e).
+Proof. exact (token_line_counts_line_feeds input ts t). Qed.
+Print Assumptions C13_token_end_line_counts_the_line_feeds.
